@@ -1,5 +1,5 @@
 SPECIFICATION SpecMC
-CONSTANTS MaxItems = 2  Kinds = {"opval", "tmp"}  Timings = {"inline", "async"}  Endings = {"done", "err"}  Cleanups = {"done", "err"}
+CONSTANTS MaxItems = 3  Kinds = {"opval", "tmp"}  Timings = {"inline", "async"}  Endings = {"done", "err"}  Cleanups = {"done", "err"}
           Reacts = {TRUE, FALSE}  Toks = {"src", "none"}  Mut = "none"
 INVARIANTS NoBad NoneLost SameInner CleanEnd RefCountOK DestroyedBeforeForward
 VIEW View
